@@ -47,7 +47,7 @@ ResOK(op, exp, got, a) ==
   /\ (op \in {"insertMany", "bulkWrite"} \/ ~exp.err) =>
        CASE op \in {"insertOne", "insertMany"} -> exp.ids = got.ids
          [] op = "bulkWrite" -> exp.n = got.n /\ exp.ids = got.ids
-         [] op \in WriteOps -> exp.n = got.n /\ exp.upid = got.upid
+         [] op \in WriteOps -> exp.n = got.n /\ (exp.upid = got.upid \/ (exp.upid = Null /\ got.upid = Missing))   \* an upserted _id of null reads as "none" in the driver's result
          [] op \in FamOps \cup {"find", "findOne"} -> exp.docs = got.docs
          [] op \in {"count", "estimatedCount", "listIndexes", "listCollections"} -> exp.count = got.count
          [] op = "distinct" -> DistinctOK(got.vals, exp.docs, PathOf(a.path))
